@@ -11,10 +11,16 @@
        accepted; T_CLOSED only for that entry (so: never after the pop of a replace or of a discard);
      - T_SETUP only for a screen not yet ready, with the arguments of the top entry, at the start of a
        _process_screen frame; T_REFRESH only for a ready screen, same conditions;
+       a setup() that runs commands of its own logs T_SETUP_BEGIN when it is entered — the conditions are checked
+       there (not ready, the top entry's arguments, first thing of the frame) — and the T_SETUP of its return and the
+       T_REFRESH that follows are recognised by the frame's state [in_setup_of] (the stack may have changed meanwhile);
      - T_SHOW only in a frame whose last lifecycle event is the T_REFRESH of the same entry;
      - after a failed setup the next stack / operation / prompt event is the pop of that entry.
+   Hypothesis [failing_setup_plain specs]: a screen whose setup() can report failure (sc_setup contains false) has no
+   setup commands; [plain_setup specs] implies it.  Without it the statement is false: a setup() that pushes a screen and
+   then reports failure makes the scheduler discard the pushed screen ([C08_failed_setup_after_push_refuted]).
    Hypothesis [wf_session]: every screen id occurring in a push / push_modal / replace / schedule command
-   (of the actions and of every callback list of every screen, through SIfCount) and the quit screen is
+   (of the actions and of every callback list of every screen — setup() included —, through SIfCount) and the quit screen is
    < length specl, i.e. every screen that can reach the stack owns a slot of per-screen state.  In the
    Python every screen is an object of its own; in the model a screen without a slot cannot remember that
    its setup succeeded (counter-example: [C08_needs_wf]). *)
@@ -25,6 +31,7 @@ Import ListNotations.
 
 (* 1. every well-formed session produces a trace the monitor accepts *)
 Theorem C08_lifecycle : forall specs specl typed quit run_empty fuel acts,
+  failing_setup_plain specs ->
   (forall n, specs n = nth n specl default_spec) -> wf_session specl quit acts = true ->
   sok chk_C08 typed (rev (trace (snd (app_run_all specs specl typed quit run_empty fuel acts)))) = true.
 Proof. exact C08_lifecycle_proof. Qed.
@@ -32,6 +39,7 @@ Proof. exact C08_lifecycle_proof. Qed.
 (* the link behind it: at the end of a session that ran to its end, the observer's set of ready screens
    is exactly the set of screens whose setup flag is set, and no closed() is outstanding *)
 Theorem C08_ready_link : forall specs specl typed quit run_empty fuel acts,
+  failing_setup_plain specs ->
   (forall n, specs n = nth n specl default_spec) -> wf_session specl quit acts = true ->
   Forall finished (fst (app_run_all specs specl typed quit run_empty fuel acts)) ->
   slink typed (snd (app_run_all specs specl typed quit run_empty fuel acts)).
@@ -43,6 +51,7 @@ Proof. exact Inv_ready. Qed.
 
 (* every _process_screen leaves the frames of the enclosing ones alone: through every loop-level call *)
 Theorem C08_frames_balanced : forall typed specs nscr Ps pf f c s o s',
+  failing_setup_plain specs ->
   (forall x, spec_wf nscr (specs x) = true) ->
   is_prog c = false -> Inv typed true nscr Ps pf s ->
   exec (screen_code specs) f c s = (o, s') ->
@@ -85,19 +94,41 @@ Theorem C08_refreshed_state : forall w e f r,
   (sw_pframes w = f :: r) \/ (exists h sid how g, e = EHandlerEnd h sid how /\ sw_pframes w = g :: f :: r).
 Proof. exact pframe_refreshed. Qed.
 
-(* setup() only for a screen not yet ready, with the top entry's arguments, at the start of a frame *)
+(* setup() only for a screen not yet ready, with the top entry's arguments, at the start of a frame — or the return of
+   a setup() with commands that was entered under these conditions (C08_setup_begin_once, C08_in_setup_state) *)
 Theorem C08_setup_once : forall typed t1 i scr args ok tx t2,
   sok chk_C08 typed (t1 ++ EUser T_SETUP [i; scr; args; ok] tx :: t2) = true ->
-  mem scr (sw_ready (fold_left sworld_step t1 (sworld0 typed))) = false /\
-  (exists e, top_entry (fold_left sworld_step t1 (sworld0 typed)) = Some e /\ en_args e = args) /\
+  (mem scr (sw_ready (fold_left sworld_step t1 (sworld0 typed))) = false /\
+   (exists e, top_entry (fold_left sworld_step t1 (sworld0 typed)) = Some e /\ en_args e = args) \/
+   in_setup_of (fold_left sworld_step t1 (sworld0 typed)) i = true) /\
   exists f r, sw_pframes (fold_left sworld_step t1 (sworld0 typed)) = f :: r /\ pf_state f = 0.
 Proof. exact accepted_setup. Qed.
 
-(* refresh() only for a ready screen (its setup has succeeded), with the top entry's arguments *)
+(* a setup() with commands is entered only for a screen not yet ready, with the top entry's arguments, as the first thing
+   of a frame, and never while a failed entry waits for its discard *)
+Theorem C08_setup_begin_once : forall typed t1 i scr args tx t2,
+  sok chk_C08 typed (t1 ++ EUser T_SETUP_BEGIN [i; scr; args] tx :: t2) = true ->
+  mem scr (sw_ready (fold_left sworld_step t1 (sworld0 typed))) = false /\
+  (exists e, top_entry (fold_left sworld_step t1 (sworld0 typed)) = Some e /\ en_args e = args) /\
+  (exists f r, sw_pframes (fold_left sworld_step t1 (sworld0 typed)) = f :: r /\ pf_state f = 0 /\ pf_id f = 0) /\
+  sw_failed (fold_left sworld_step t1 (sworld0 typed)) = None.
+Proof. exact accepted_setup_begin. Qed.
+
+(* "inside the setup() of entry i" is a state of the innermost frame that only T_SETUP_BEGIN of entry i creates (the
+   frame's refresh / draw end it; an inner frame that ends reveals the state of the enclosing one) *)
+Theorem C08_in_setup_state : forall w e i,
+  in_setup_of (sworld_step w e) i = true ->
+  (exists a t, e = EUser T_SETUP_BEGIN a t /\ nth0 a 0 = i) \/ in_setup_of w i = true \/
+  (exists h sid how g r, e = EHandlerEnd h sid how /\ sw_pframes w = g :: r /\ sw_pframes (sworld_step w e) = r).
+Proof. exact in_setup_armed. Qed.
+
+(* refresh() only for a ready screen (its setup has succeeded), with the top entry's arguments — or right after the
+   return of that entry's setup() with commands *)
 Theorem C08_refresh_ready : forall typed t1 i scr args tx t2,
   sok chk_C08 typed (t1 ++ EUser T_REFRESH [i; scr; args] tx :: t2) = true ->
   mem scr (sw_ready (fold_left sworld_step t1 (sworld0 typed))) = true /\
-  (exists e, top_entry (fold_left sworld_step t1 (sworld0 typed)) = Some e /\ en_args e = args) /\
+  ((exists e, top_entry (fold_left sworld_step t1 (sworld0 typed)) = Some e /\ en_args e = args) \/
+   in_setup_of (fold_left sworld_step t1 (sworld0 typed)) i = true) /\
   exists f r, sw_pframes (fold_left sworld_step t1 (sworld0 typed)) = f :: r /\ pf_state f = 0.
 Proof. exact accepted_refresh. Qed.
 
@@ -156,6 +187,31 @@ Example C08_needs_wf :
   sok chk_C04 typed (rev (trace (snd (app_run_all (fun n => nth n specl default_spec) specl typed None false 500 acts)))) = true.
 Proof. vm_compute. repeat split. Qed.
 
+(* setup() with commands.  Screen 0's setup() pushes screen 1 and reports FAILURE (session [fs_specl] of
+   proofs/C04Proofs.v): the entry the scheduler discards is the pushed screen, not the one whose setup failed — "a screen
+   whose setup reports failure is discarded" is violated by the code; the model's own trace is rejected *)
+Example C08_failed_setup_after_push_refuted :
+  sok chk_C08 fs_typed (rev (trace (snd (app_run_all (fs_specs [false]) (fs_specl [false]) fs_typed None false fs_fuel fs_acts)))) = false.
+Proof. vm_compute; reflexivity. Qed.
+
+Example C08_failed_setup_after_push_trace :
+  filter (fun e => match e with EUser g _ _ => (g =? T_SETUP)%nat || (g =? T_SETUP_BEGIN)%nat || (g =? T_STACK)%nat | _ => false end)
+         (firstn 22 (rev (trace (snd (app_run_all (fs_specs [false]) (fs_specl [false]) fs_typed None false fs_fuel fs_acts))))) =
+  [EUser T_STACK [K_ADD_FIRST; 0; 0; 0; 0] []; EUser T_SETUP_BEGIN [0; 0; 0] []; EUser T_STACK [K_APPEND; 1; 1; 0; 0] [];
+   EUser T_SETUP [0; 0; 0; 0] []; EUser T_STACK [K_POP; 1; 1; 0; 0] []].
+Proof. vm_compute. reflexivity. Qed.
+
+(* the same session with a setup() that succeeds satisfies the hypotheses of C08_lifecycle (so they are satisfiable by a
+   setup() that changes the stack), is accepted, and runs to its end *)
+Theorem C08_setup_push_hypothesis : failing_setup_plain (fs_specs []) /\ ~ failing_setup_plain (fs_specs [false]).
+Proof. exact (conj fs_failing_setup_plain fs_not_failing_setup_plain). Qed.
+
+Example C08_setup_push_accepted :
+  wf_session (fs_specl []) None fs_acts = true /\
+  sok chk_C08 fs_typed (rev (trace (snd (app_run_all (fs_specs []) (fs_specl []) fs_typed None false fs_fuel fs_acts)))) = true /\
+  fst (app_run_all (fs_specs []) (fs_specl []) fs_typed None false fs_fuel fs_acts) = [ONormal; ONormal].
+Proof. vm_compute. repeat split. Qed.
+
 Print Assumptions C08_lifecycle.
 Print Assumptions C08_ready_link.
 Print Assumptions C08_ready_is_flag.
@@ -166,6 +222,9 @@ Print Assumptions C08_closed_at_once.
 Print Assumptions C08_show_after_refresh.
 Print Assumptions C08_refreshed_state.
 Print Assumptions C08_setup_once.
+Print Assumptions C08_setup_begin_once.
+Print Assumptions C08_in_setup_state.
+Print Assumptions C08_setup_push_hypothesis.
 Print Assumptions C08_refresh_ready.
 Print Assumptions C08_ready_for_ever.
 Print Assumptions C08_failed_setup_discarded.
